@@ -710,7 +710,10 @@ def check_C08(work, args):
                'backtracking leaves no trace: K3 correspondence + callback balance + reference interpreter with value semantics',
                gen_opts=dict(choice=0.9, commit=0.5, nrules=(2, 5), pred_true_only=True, assertion=0.0), with_k1=False, maxlen=16,
                need=lambda g: 'choice' in g.features,
-               prefilter=lambda it: not ({'pred_user', 'assert'} & oracles.grammar_features(it['res']['dump'])))
+               # crossing / stale markers (known findings D5a, D5c, judged by C01/C02) garble the tree whether or not
+               # anything is backtracked; the tree comparison of this check is about the effect of backtracking
+               prefilter=lambda it: not ({'pred_user', 'assert'} & oracles.grammar_features(it['res']['dump']))
+               and not known.crossing_or_stale_markers(it['res']['dump']))
 
 
 def cases_c16(ck, it, n):
